@@ -5,7 +5,7 @@ from props.common import gen_stalls, gen_strategy, quiet_logging, Violations, se
 from worlds.full import FullWorld, default_cluster_spec, ReqObs
 
 ID = 'C25'
-TIERS = {'quick': {'runs': 2500, 'budget_s': 55, 'wall_cap': 150, 'block': 40},
+TIERS = {'quick': {'runs': 7500, 'budget_s': 55, 'wall_cap': 150, 'block': 40},
          'thorough': {'runs': 250000, 'budget_s': 840, 'wall_cap': 150, 'block': 40}}
 SHRINK_LISTS = ['events']
 COVERAGE_RULE = ('one run = real Cluster with 1-2 Sessions over 2-3 fake nodes, executor 1-4 workers, status/topology event windows '
